@@ -109,6 +109,13 @@ def oracle_eval(o, rc, out, err):
             return True, "stdout is not JSON: %r" % out[:80]
         bad = [r for r in recs if not r.get(o.get("field", "ok"))]
         return bool(bad), "%d of %d records disagree; first: %s" % (len(bad), len(recs), json.dumps(bad[0])[:300] if bad else "-")
+    if kind == "stderr_count_equals":
+        if rc not in (0, 1, 2) or b"panicked at" in err:
+            return True, "crash exit=%d" % rc
+        k = err.decode("utf-8", "replace").count(o["needle"])
+        return k != o["count"], "stderr contains %r %d time(s), expected %d (exit=%d)" % (o["needle"], k, o["count"], rc)
+    if kind == "stdout_equals":
+        return (rc != 0 or out.decode("utf-8", "replace") != o["value"]), "exit=%d stdout=%r" % (rc, out[:80])
     if kind == "error_reported_no_crash":
         bad = rc != 1 or b"panicked at" in err or b"error:" not in err
         return bad, "exit=%d stderr=%s" % (rc, err.decode("utf-8", "replace")[:300])
@@ -367,6 +374,13 @@ def _json_raw_char(vals, v):
     if ch == '"':
         return []
     return [{"source": src, "oracle": {"oracle": "stdout_json_equals", "expected": ch}}]
+
+
+@adapter("thunk_chain")
+def _thunk_chain(vals, v):
+    """probe: a chain of `+:` layers deeper than the frame limit must be stopped with a reported error"""
+    return [{"source": "std.foldl(function(o, i) o + { a+: 1 }, std.range(1, 400), { a: 0 }).a", "args": ["--max-stack", "100"],
+             "oracle": {"oracle": "error_expected"}}]
 
 
 @adapter("crop")
